@@ -72,9 +72,9 @@ PROPS = {
     ),
     'C10': dict(
         title='metadata rules', proj='proj_params', oracle='c10',
-        quick=[S_('probes', nc=1, items=('eq_defaults',)), S_('meta_rand', count=40000), S_('meta_post', count=20000), S_('merge_roles', count=10000),
+        quick=[S_('probes', nc=1, items=('nested_partial', 'late_binding')), S_('probes', nc=1, items=('eq_defaults',)), S_('meta_rand', count=40000), S_('meta_post', count=20000), S_('merge_roles', count=10000),
                S_('embed_rand', count=10000), S_('forwards_rand', count=20000), S_('partialfwd', count=600, oracle='c19'), S_('maskp')],
-        thorough=[S_('probes', nc=1, items=('eq_defaults',)), S_('meta_rand', count=500000), S_('meta_post', count=200000), S_('merge_roles', count=100000),
+        thorough=[S_('probes', nc=1, items=('nested_partial', 'late_binding')), S_('probes', nc=1, items=('eq_defaults',)), S_('meta_rand', count=500000), S_('meta_post', count=200000), S_('merge_roles', count=100000),
                   S_('embed_rand', count=100000), S_('forwards_rand', count=200000), S_('partialfwd', count=2000, oracle='c19'), S_('maskp'), S_('forwards_exh', nc=32)],
         runtime_part='equality of default / annotation objects (modelled as token equality)',
         level_text='The one-step conciliation rules and their n-ary lift for defaults are theorems about the Lean model; the n-ary annotation rule is '
@@ -107,8 +107,8 @@ PROPS = {
     ),
     'C12': dict(
         title='modifiers', proj='proj_full', oracle='c12',
-        quick=[S_('bindcall'), S_('pok'), S_('pokm'), S_('pokmforms'), S_('pokstacked'), S_('poknames'), S_('modorder', oracle='c18'), S_('lateattr', nc=1, oracle='c18')],
-        thorough=[S_('bindcall'), S_('pok', nc=64), S_('pokm'), S_('pokmforms'), S_('pokstacked'), S_('poknames'), S_('modorder', oracle='c18'), S_('lateattr', nc=1, oracle='c18')],
+        quick=[S_('probes', nc=1, items=('odd_defaults_c12', 'hint_history')), S_('bindcall'), S_('pok'), S_('pokm'), S_('pokmforms'), S_('pokstacked'), S_('poknames'), S_('modorder', oracle='c18'), S_('lateattr', nc=1, oracle='c18')],
+        thorough=[S_('probes', nc=1, items=('odd_defaults_c12', 'hint_history')), S_('bindcall'), S_('pok', nc=64), S_('pokm'), S_('pokmforms'), S_('pokstacked'), S_('poknames'), S_('modorder', oracle='c18'), S_('lateattr', nc=1, oracle='c18')],
         runtime_part='descriptor binding of the translator object, functools.update_wrapper',
         level_text='prepare (advertised signature, admissibility) and the call translation are modelled branch by branch; exactness of the translated call '
                    'w.r.t. a native function of the advertised signature is a theorem over a value-level model of CPython binding. Correspondence: every '
@@ -117,8 +117,8 @@ PROPS = {
     ),
     'C19': dict(
         title='functools.partial', proj='proj_full', oracle='c19',
-        quick=[S_('bind'), S_('partial'), S_('maskp'), S_('partialfwd', count=2200), S_('programs', count=16000, routes=('param',), ops=('pauto',))],
-        thorough=[S_('bind'), S_('partial'), S_('maskp'), S_('partialfwd', count=8000), S_('programs', count=160000, routes=('param',), ops=('pauto',))],
+        quick=[S_('probes', nc=1, items=('nested_partial',)), S_('bind'), S_('partial'), S_('maskp'), S_('partialfwd', count=2200), S_('programs', count=16000, routes=('param',), ops=('pauto',))],
+        thorough=[S_('probes', nc=1, items=('nested_partial',)), S_('bind'), S_('partial'), S_('maskp'), S_('partialfwd', count=8000), S_('programs', count=160000, routes=('param',), ops=('pauto',))],
         runtime_part='functools.partial.__call__ (the oracle really calls the partial objects)',
         level_text='signature(partial) is _mask in partial mode: exactness w.r.t. "f accepts the bound plus the call arguments" is a theorem about the Lean '
                    'model; correspondence on real functools.partial objects of real functions (parameters, provenance, depths), plain and automatic retrieval.',
@@ -126,8 +126,8 @@ PROPS = {
     ),
     'C20': dict(
         title='support helpers', proj='proj_full', oracle='c20',
-        quick=[S_('bindcall'), S_('callsig'), S_('makeup'), S_('readsig')],
-        thorough=[S_('bindcall'), S_('callsig'), S_('makeup'), S_('readsig', count=60000)],
+        quick=[S_('probes', nc=1, items=('odd_defaults_c20',)), S_('bindcall'), S_('callsig'), S_('makeup'), S_('readsig')],
+        thorough=[S_('probes', nc=1, items=('odd_defaults_c20',)), S_('bindcall'), S_('callsig'), S_('makeup'), S_('readsig', count=60000)],
         runtime_part='regex splitting, str(Signature), compile/exec in s/f/func_from_sig (validated by round trips for all 8 read_sig option combinations, eager and postponed)',
         level_text='bind_callsig = CPython binding (outside the version-dependent case), sort_callsigs partition and make_up_callsigs completeness are theorems '
                    'about the Lean model; the string layer (read_sig / func_code / s / f / func_from_sig) is validated by round trips only (partial).',
@@ -135,8 +135,8 @@ PROPS = {
     ),
     'C14': dict(
         title='drop-in inspect objects', proj='proj_full', oracle='c14',
-        quick=[S_('eq'), S_('sigcmp')],
-        thorough=[S_('eq'), S_('sigcmp')],
+        quick=[S_('probes', nc=1, items=('copy_eq',)), S_('eq'), S_('sigcmp')],
+        thorough=[S_('probes', nc=1, items=('copy_eq',)), S_('eq'), S_('sigcmp')],
         runtime_part='inherited str()/bind()/bind_partial() (compared with a plain inspect.Signature over the universe x call shapes), attribute storage of replace()',
         level_text='The ==/!=/hash protocol (reflected operand first, NotImplemented fall-backs) of upgraded vs plain objects is modelled and its laws (total, reflexive, '
                    'symmetric, consistent with hash, hashable like the plain counterpart) are theorems; the model is compared with real ==, != and hash over a menagerie; '
@@ -145,8 +145,8 @@ PROPS = {
     ),
     'C16': dict(
         title='no mutation, even on failure', proj='proj_full', oracle='c16',
-        quick=[S_('cleanup'), S_('faults'), S_('alias', count=6000), S_('probes_c16', nc=1)],
-        thorough=[S_('cleanup'), S_('faults'), S_('alias', count=60000), S_('probes_c16', nc=1)],
+        quick=[S_('probes', nc=1, items=('dict_unpack', 'lru_callee')), S_('cleanup'), S_('faults'), S_('alias', count=6000), S_('probes_c16', nc=1)],
+        thorough=[S_('probes', nc=1, items=('dict_unpack', 'lru_callee')), S_('cleanup'), S_('faults'), S_('alias', count=60000), S_('probes_c16', nc=1)],
         runtime_part='which calls cross into outside code (the injector patches inspect.signature, inspect.getsource, ast.parse, user forgers and attribute getters), real attribute storage',
         level_text='cleanup_functools_wrapper + the as_forged guard are a step machine with a crash possible at every outside call: "attributes and guard are restored for every crash '
                    'point" is a theorem; the real context manager is compared with the model for every store shape x crash point, whole retrievals are run with an exception injected at '
@@ -165,8 +165,8 @@ PROPS = {
     ),
     'C18': dict(
         title='order / history independence, no retention', proj='proj_full', oracle='c18',
-        quick=[S_('cacheid', nc=8), S_('cache', maxlen=3), S_('modorder'), S_('pokm'), S_('lateattr', nc=1), S_('probes', nc=1, items=('owner_binding',)), S_('redecorate', nc=4)],
-        thorough=[S_('cacheid', nc=8, count=6000), S_('cache', maxlen=4), S_('modorder'), S_('pokm'), S_('lateattr', nc=1), S_('probes', nc=1, items=('owner_binding',)), S_('redecorate', nc=4)],
+        quick=[S_('probes', nc=1, items=('hint_history',)), S_('cacheid', nc=8), S_('cache', maxlen=3), S_('modorder'), S_('pokm'), S_('lateattr', nc=1), S_('probes', nc=1, items=('owner_binding',)), S_('redecorate', nc=4)],
+        thorough=[S_('probes', nc=1, items=('hint_history',)), S_('cacheid', nc=8, count=6000), S_('cache', maxlen=4), S_('modorder'), S_('pokm'), S_('lateattr', nc=1), S_('probes', nc=1, items=('owner_binding',)), S_('redecorate', nc=4)],
         runtime_part='the garbage collector and weakref callbacks (observed through weak references after gc.collect())',
         level_text='The descriptor cache is a heap-reachability model over arbitrary operation histories: no retention with the weak-value dictionary is a theorem (and retention with the '
                    'pinned weak-key one is its refutation, D7, repaired); order independence of stacked modifiers is the theorem prepare_set_ext. Real histories (all of length <= 3/4 over '
@@ -175,9 +175,9 @@ PROPS = {
     ),
     'C05': dict(
         title='discovery is sound', proj='proj_full', oracle='c05',
-        quick=[S_('bind'), S_('visitor_adv', nc=4), S_('visitor_corpus', star_only=True), S_('programs', count=3000),
+        quick=[S_('probes', nc=1, items=('partial_mix',)), S_('bind'), S_('visitor_adv', nc=4), S_('visitor_corpus', star_only=True), S_('programs', count=3000),
                S_('progexec', count=3000, ops=('progexec',)), S_('probes_c05', nc=1)],
-        thorough=[S_('bind'), S_('visitor_adv', nc=4), S_('visitor_corpus'), S_('programs', count=60000),
+        thorough=[S_('probes', nc=1, items=('partial_mix',)), S_('bind'), S_('visitor_adv', nc=4), S_('visitor_corpus'), S_('programs', count=60000),
                   S_('progexec', count=60000, ops=('progexec',)), S_('probes_c05', nc=1)],
         runtime_part='name resolution through real globals / closures / attributes / bound arguments, decorator plumbing, execution of the generated wrappers',
         level_text='The AST walker is modelled on a generic tree covering every Python node type; that it is total and that, on every program of an inductively defined forwarding grammar '
@@ -188,8 +188,8 @@ PROPS = {
     ),
     'C06': dict(
         title='discovery = declaration; invariance', proj='proj_full', oracle='c06',
-        quick=[S_('programs', count=3000), S_('progexec', count=3000, ops=('declared', 'variants')), S_('visitor_adv', nc=4), S_('probes_c06', nc=1), S_('programs_hint', count=6000)],
-        thorough=[S_('programs', count=60000), S_('progexec', count=60000, ops=('declared', 'variants')), S_('visitor_adv', nc=4), S_('probes_c06', nc=1), S_('programs_hint', count=60000)],
+        quick=[S_('probes', nc=1, items=('lru_callee',)), S_('programs', count=3000), S_('progexec', count=3000, ops=('declared', 'variants')), S_('visitor_adv', nc=4), S_('probes_c06', nc=1), S_('programs_hint', count=6000)],
+        thorough=[S_('probes', nc=1, items=('lru_callee',)), S_('programs', count=60000), S_('progexec', count=60000, ops=('declared', 'variants')), S_('visitor_adv', nc=4), S_('probes_c06', nc=1), S_('programs_hint', count=60000)],
         runtime_part='the modifiers hint protocol, functools.wraps-only decorators, real name resolution',
         level_text='visitor = ground truth on the forwarding grammar and hence discovery = explicit declaration (computed from the ground truth with the algebra) are theorems about the model, as is '
                    'invariance under decoy calls / unrelated statements / assignment targets; on the real code every generated wrapper is compared with the declaration computed through the public '
@@ -198,8 +198,8 @@ PROPS = {
     ),
     'C07': dict(
         title='retrieval is total and only narrows', proj='proj_full', oracle='c07',
-        quick=[S_('visitor_corpus', limit=4000), S_('visitor_adv', nc=4), S_('chain', nc=4), S_('probes', nc=3, items=('adversarial2', 'other_thread', 'adversarial3')), S_('retrieve'), S_('programs', count=16000, routes=('self', 'param'), ops=('pauto',))],
-        thorough=[S_('visitor_corpus'), S_('visitor_adv', nc=4), S_('chain', nc=4), S_('probes', nc=3, items=('adversarial2', 'other_thread', 'adversarial3')), S_('retrieve'), S_('programs', count=160000, routes=('self', 'param'), ops=('pauto',))],
+        quick=[S_('probes', nc=1, items=('odd_defaults_c07',)), S_('visitor_corpus', limit=4000), S_('visitor_adv', nc=4), S_('chain', nc=4), S_('probes', nc=3, items=('adversarial2', 'other_thread', 'adversarial3')), S_('retrieve'), S_('programs', count=16000, routes=('self', 'param'), ops=('pauto',))],
+        thorough=[S_('probes', nc=1, items=('odd_defaults_c07',)), S_('visitor_corpus'), S_('visitor_adv', nc=4), S_('chain', nc=4), S_('probes', nc=3, items=('adversarial2', 'other_thread', 'adversarial3')), S_('retrieve'), S_('programs', count=160000, routes=('self', 'param'), ops=('pauto',))],
         runtime_part='what inspect, getsource, ast.parse, getattr and Sphinx raise on real objects (validated over the corpus, not proved)',
         level_text='Totality of the AST walker on arbitrary trees (theorem visitor_total: the deferred-call queue always drains) and of the fallback chain of the model; the real retrieval is run over every '
                    'star-taking function and a seeded sample (thorough: all) of the ~2*10^4 callables of the importable standard library and installed packages plus adversarial sources, comparing the '
@@ -208,8 +208,8 @@ PROPS = {
     ),
     'C11': dict(
         title='postponed annotations', proj='proj_uann', oracle='c11',
-        quick=[S_('meta_post', count=30000), S_('meta_rand', count=10000), S_('annot', count=4000), S_('probes', nc=1, items=('annot_scopes',)), S_('probes_c11', nc=1)],
-        thorough=[S_('meta_post', count=300000), S_('meta_rand', count=100000), S_('annot', count=60000), S_('probes', nc=1, items=('annot_scopes',)), S_('probes_c11', nc=1)],
+        quick=[S_('probes', nc=1, items=('late_binding',)), S_('meta_post', count=30000), S_('meta_rand', count=10000), S_('annot', count=4000), S_('probes', nc=1, items=('annot_scopes',)), S_('probes_c11', nc=1)],
+        thorough=[S_('probes', nc=1, items=('late_binding',)), S_('meta_post', count=300000), S_('meta_rand', count=100000), S_('annot', count=60000), S_('probes', nc=1, items=('annot_scopes',)), S_('probes_c11', nc=1)],
         runtime_part='eval() of postponed annotations in real function globals (stream `annot` compiles real twins with and without the future flag, shared and per-function globals)',
         level_text='The algebra carries the (annotation, upgraded annotation) pair of a parameter around without looking inside: that every pair of a result is literally the pair of an input parameter '
                    '(so a postponed annotation is never re-associated with another function\'s globals) is a theorem for merge/embed/mask/forwards/partial/modifiers; twin invariance is refuted at full '
@@ -218,8 +218,8 @@ PROPS = {
     ),
     'C13': dict(
         title='wrappers are call-transparent', proj='proj_full', oracle='c13',
-        quick=[S_('wrap', count=640), S_('probes', nc=1, items=('owner_binding',)), S_('wlist', nc=4)],
-        thorough=[S_('wrap', count=12000), S_('probes', nc=1, items=('owner_binding',)), S_('wlist', nc=4)],
+        quick=[S_('probes', nc=1, items=('c13_r8',)), S_('wrap', count=640), S_('probes', nc=1, items=('owner_binding',)), S_('wlist', nc=4)],
+        thorough=[S_('probes', nc=1, items=('c13_r8',)), S_('wrap', count=12000), S_('probes', nc=1, items=('owner_binding',)), S_('wlist', nc=4)],
         runtime_part='functools.partial / descriptor call path: call transparency is definitional in any model and is validated on the real objects, not proved',
         level_text='Introspection side as theorems: wrappers() order for any stack depth, each stack level is a forwards (hence sound by C04), the Combination signature is sound for consistently named '
                    'functions (instance of the n-ary merge soundness theorem). Real side: decorator / wrapper_decorator stacks of depth 1-3 as function / method / staticmethod and Combinations of 1-3 '
